@@ -24,7 +24,7 @@ ASSUMPTIONS = [
     "'discarded' for prune/expand/replace-with-deletion = nodes reachable from the operated root before but not after",
     "attach and replace without deletion do not change the registry",
 ]
-REQUIRED = ["misplaced_sweep_cases", "op:expand_dangling", "dangling_expansions_that_raised", "nodes_in_one_copy", "op:borrow", "documents_closed_and_reopened", "op:create", "op:copy", "op:from_xml", "op:from_json", "op:attach", "op:replace_delete", "op:replace_keep", "op:prune",
+REQUIRED = ["op:replace_by_sibling", "op:copy_discarded", "misplaced_sweep_cases", "op:expand_dangling", "dangling_expansions_that_raised", "nodes_in_one_copy", "op:borrow", "documents_closed_and_reopened", "op:create", "op:copy", "op:from_xml", "op:from_json", "op:attach", "op:replace_delete", "op:replace_keep", "op:prune",
             "op:prune_strict", "op:expand", "op:delete", "op:delete_keep_children", "op:forget", "op:replace_rejected", "id_stress_nodes", "ops_discarding", "ops_creating"]
 EXHAUSTIVE = {"quick": False, "thorough": False}
 
@@ -199,6 +199,7 @@ def lister_of(n, root):
 def one_history(ctx, gen, hno):
     rng = ctx.rng
     held = []          # roots of fully registered, live trees
+    discarded_roots = []    # roots of subtrees that left the registry (a handle was kept)
     history = []
     mon = Monitor(ctx, history)
 
@@ -211,7 +212,7 @@ def one_history(ctx, gen, hno):
     for step in range(60):
         before = dict(Node.store)
         ops = ["create", "create", "copy", "from_xml", "from_json", "attach", "replace_delete", "replace_keep", "prune", "prune_strict",
-               "expand", "expand_dangling", "delete", "delete_keep_children", "forget", "replace_rejected", "close_and_reopen", "borrow"]
+               "expand", "expand_dangling", "delete", "delete_keep_children", "forget", "replace_by_sibling", "copy_discarded", "replace_rejected", "close_and_reopen", "borrow"]
         op = rng.choice(ops)
         if live_count() > 200:
             op = "delete"
@@ -312,6 +313,8 @@ def one_history(ctx, gen, hno):
                 old.parent.replace_child(old, new, delete_old=(op == "replace_delete"))
                 if op == "replace_delete":
                     mon.check(op, before, [], gone, wit)
+                    discarded_roots.append(old)
+                    del discarded_roots[:-6]
                 else:
                     mon.check(op, before, [], [], wit)
                     old.parent = None
@@ -341,6 +344,8 @@ def one_history(ctx, gen, hno):
                 created = [n for i, n in ra.items() if i not in rb]
                 discarded = [n for i, n in rb.items() if i not in ra]
                 mon.check(op, before, created, discarded, wit)
+                discarded_roots.extend(p_[0] for p_ in pruned[:2] if p_[0] is not t)
+                del discarded_roots[:-6]
                 history[-1] = [op, f"tree of {len(rb)} nodes, {len(discarded)} discarded"]
                 if not root_pruned:
                     held.append(t)
@@ -392,6 +397,40 @@ def one_history(ctx, gen, hno):
                 mon.check(op, before, created, discarded, wit)
                 history[-1] = [op, f"tree of {len(rb)} nodes, {k} references and a dangling one"]
                 held.append(top)
+            elif op == "replace_by_sibling" and held:
+                # a child is replaced by one of its own siblings (duplicate entries merged into the first one): the replaced child and
+                # everything below it leaves the registry, nobody else does.  (The sibling is listed twice afterwards - the tree is not
+                # used again.)
+                i = rng.randrange(len(held))
+                r = held[i]
+                wide = [n for n in snapshot.walk(r) if len(n.children) >= 2]
+                if not wide:
+                    continue
+                par = rng.choice(wide)
+                a_, b_ = rng.sample(range(len(par.children)), 2)
+                old, new = par.children[a_], par.children[b_]
+                if new.name != old.name:
+                    new.name = old.name
+                before = dict(Node.store)
+                gone = snapshot.walk(old)
+                history.append([op, par.name, a_, b_, len(gone)])
+                par.replace_child(old, new)
+                still = {id(n) for n in snapshot.walk(r)}
+                mon.check(op, before, [], [n for n in gone if id(n) not in still], wit)
+                if any(c is old for c in par.children):
+                    ctx.violation("replaced-child-still-listed|replace_by_sibling", "after replace_child(old, sibling) the old child is still among the children",
+                                  wit())
+                held.pop(i)
+                emlkit.discard(r)
+            elif op == "copy_discarded" and discarded_roots:
+                # a node that left the registry (returned by prune, retired by a replace, deleted by id) is copied - to be put back somewhere
+                # else: the copy is a new registered tree, the discarded one stays out
+                src = rng.choice(discarded_roots)
+                history.append([op, src.name, len(snapshot.walk(src))])
+                c = src.copy()
+                mon.check(op, before, snapshot.walk(c), [], wit)
+                c.parent = None
+                held.append(c)
             elif op == "replace_rejected" and len(held) >= 2:
                 # a replace that must be refused (the 'old' node is not a child of the receiver): nothing may leave the registry
                 a, b = rng.sample(range(len(held)), 2)
